@@ -15,15 +15,18 @@ import (
 )
 
 type seqIn struct {
-	Seed      int64 `json:"seed"`
-	Shard     int   `json:"shard"`
-	Shards    int   `json:"shards"`
-	MaxLen    int   `json:"max_len"`    // exhaustive scope, plain, emulate_mode no
-	ESMaxLen  int   `json:"es_max_len"` // same scope again through /_bulk
-	GzMaxLen  int   `json:"gz_max_len"` // bodies up to this length, several gzip encodings
-	Large     int   `json:"large"`      // seeded large cases in this shard
-	Net       int   `json:"net"`        // seeded cases over loopback TCP in this shard
-	AvgEvSize int   `json:"avg_event_size"`
+	Seed      int64  `json:"seed"`
+	Shard     int    `json:"shard"`
+	Shards    int    `json:"shards"`
+	MaxLen    int    `json:"max_len"`    // exhaustive scope, plain, emulate_mode no
+	ESMaxLen  int    `json:"es_max_len"` // same scope again through /_bulk
+	GzMaxLen  int    `json:"gz_max_len"` // bodies up to this length, several gzip encodings
+	Large     int    `json:"large"`      // seeded large cases in this shard
+	Net       int    `json:"net"`        // seeded cases over loopback TCP in this shard
+	AvgEvSize int    `json:"avg_event_size"`
+	LimMaxLen int    `json:"lim_max_len"` // exhaustive scope up to this length again with a small max_event_size
+	Small     limits `json:"small_limit"` // instance for the small scope
+	Big       limits `json:"big_limit"`   // instances (no / elasticsearch) for half of the seeded bodies
 }
 
 type seqOut struct {
@@ -42,16 +45,31 @@ type seqRun struct {
 	io     *core.ChildIO
 	plain  *instance
 	es     *instance
+	small  *instance // emulate_mode no, small max_event_size
+	big    *instance // emulate_mode no, max_event_size of this shard
+	bigES  *instance
 	nlog   int64
 }
 
 func (s *seqRun) count(k string, n int64) { s.out.Counters[k] += n }
 
 func (s *seqRun) inst(c *Case) *instance {
-	if c.ES {
-		return s.es
+	var in *instance
+	switch {
+	case c.LimClass == "small":
+		in = s.small
+	case c.LimClass == "big" && c.ES:
+		in = s.bigES
+	case c.LimClass == "big":
+		in = s.big
+	case c.ES:
+		in = s.es
+	default:
+		in = s.plain
 	}
-	return s.plain
+	c.Lim = in.lim
+	c.ES = in.es
+	return in
 }
 
 // observe records coverage facts of a clean case from the reference side and
@@ -69,6 +87,38 @@ func (s *seqRun) observe(c *Case, o *obs, outcome string) {
 	}
 	if len(want) == 0 {
 		s.count("bodies_without_any_line", 1)
+	}
+	if m := c.Lim.MaxEventSize; m > 0 {
+		s.count("cases_with_max_event_size_set", 1)
+		if c.Lim.CutOff {
+			s.count("cases_with_max_event_size_and_cut_off_event_by_limit", 1)
+		}
+		for _, l := range want {
+			switch {
+			case len(l) > m:
+				s.count("lines_longer_than_max_event_size", 1)
+			case len(l) == m:
+				s.count("lines_exactly_max_event_size", 1)
+			}
+		}
+		if !c.Gzip && !c.Net {
+			// a line longer than the limit whose carry-over (everything read before
+			// its newline / before EOF) already exceeds the limit at a read boundary
+			off, ls := 0, 0 // ls = start of the current line
+			bounds := map[int]bool{}
+			for _, r := range o.reads {
+				off += r
+				bounds[off] = true
+			}
+			for i := 0; i <= len(c.Wire); i++ {
+				if i == len(c.Wire) || c.Wire[i] == '\n' {
+					if i-ls > m && bounds[i] && i > ls {
+						s.count("long_line_complete_in_carry_over_at_read_boundary(max_event_size)", 1)
+					}
+					ls = i + 1
+				}
+			}
+		}
 	}
 	for _, l := range want {
 		if len(l) == 0 {
@@ -139,6 +189,34 @@ func (s *seqRun) runCase(c *Case, fp string) {
 	}
 }
 
+// limTag: how the longest line of the body relates to max_event_size.
+func limTag(c *Case) string {
+	m := c.Lim.MaxEventSize
+	if c.LimClass == "" {
+		return ""
+	}
+	longest := 0
+	for _, l := range refLines(c.Body) {
+		if len(l) > longest {
+			longest = len(l)
+		}
+	}
+	rel := "<"
+	switch {
+	case longest == m:
+		rel = "="
+	case longest == m+1:
+		rel = "=+1"
+	case longest > m:
+		rel = ">"
+	}
+	mc := "small"
+	if m > 64 {
+		mc = "big"
+	}
+	return fmt.Sprintf(":max_event_size(%s,cutoff=%v)longest%s", mc, c.Lim.CutOff, rel)
+}
+
 func eofTag(b bool) string {
 	if b {
 		return "$E"
@@ -155,10 +233,14 @@ func childSeq(raw json.RawMessage, cio *core.ChildIO) (any, error) {
 	s.out.Counters = map[string]int64{}
 	s.out.VSeen = map[string]int{}
 	s.out.Incon = map[string]int{}
-	s.plain = newInstance(false, in.AvgEvSize)
-	s.es = newInstance(true, in.AvgEvSize)
-	defer s.plain.close()
-	defer s.es.close()
+	s.plain = newInstance(false, in.AvgEvSize, limits{})
+	s.es = newInstance(true, in.AvgEvSize, limits{})
+	s.small = newInstance(false, in.AvgEvSize, in.Small)
+	s.big = newInstance(false, in.AvgEvSize, in.Big)
+	s.bigES = newInstance(true, in.AvgEvSize, in.Big)
+	for _, x := range []*instance{s.plain, s.es, s.small, s.big, s.bigES} {
+		defer x.close()
+	}
 
 	// ---- seeded large bodies first and last half, so that small cases run on
 	// buffers that have seen long lines and vice versa
@@ -166,8 +248,12 @@ func childSeq(raw json.RawMessage, cio *core.ChildIO) (any, error) {
 	runLarge := func(n int, net bool) {
 		for i := 0; i < n; i++ {
 			c := genLarge(rng, net)
+			if rng.Intn(2) == 0 {
+				c.LimClass = "big"
+			}
+			c.Lim = s.inst(c).lim
 			cio.Log(map[string]any{"part": "seeded", "net": net, "i": i, "case": c.witness()})
-			fp := "S:" + c.enc() + ":" + c.Kind + ":" + eofTag(c.EOFWithLast) + ":" + bodyClass(c)
+			fp := "S:" + c.enc() + ":" + c.Kind + ":" + eofTag(c.EOFWithLast) + ":" + bodyClass(c) + limTag(c)
 			s.runCase(c, fp)
 			if len(s.out.Samples) < 2 && i%7 == 3 {
 				s.out.Samples = append(s.out.Samples, map[string]any{"case": c.witness(), "lines": len(refLines(c.Body))})
@@ -201,6 +287,12 @@ func childSeq(raw json.RawMessage, cio *core.ChildIO) (any, error) {
 			ce.ES = true
 			s.runCase(&ce, "")
 			s.count("exhaustive_es_bulk_cases", 1)
+		}
+		if L <= in.LimMaxLen {
+			cl := *c
+			cl.LimClass = "small"
+			s.runCase(&cl, "XL:"+shape(body, plan, false)+eofTag(eofLast)+limTag(&cl))
+			s.count("exhaustive_small_max_event_size_cases", 1)
 		}
 		if len(s.out.Samples) < 4 && L == in.MaxLen && n%997 == 0 {
 			s.out.Samples = append(s.out.Samples, map[string]any{"case": c.witness(), "expected_lines": qs(refLines(body))})
